@@ -65,6 +65,14 @@ func fieldsReadFrom(c *Ctx, fn *ssa.Function, pkg, typ string) map[string]bool {
 
 func runC04(c *Ctx) {
 	c.Rule("C04.R1", "WIRE/PDT", "Match = conjunction of all modifier checks, each with the right request field; third-party table", 9)
+	c.Rule("C04.R10", "WIRE", "the include and exclude lists of content types are independent: each word is only ever or-ed into", 3)
+	if td, ok := (&anchors{c: c, rule: "C04.R10"}).constInt("rules", "TypeDocument"); ok {
+		monotoneConstOK["permittedRequestTypes"] = td
+	}
+	checkOptionWordMonotone(c, "C04.R10", "permittedRequestTypes", 0,
+		"a content type given later removes one given earlier from the include list: $~script,script behaves like $script, and an emptied include list means 'every type'")
+	checkOptionWordMonotone(c, "C04.R10", "restrictedRequestTypes", 0,
+		"a modifier parsed later removes content types from the exclude list: $script,~script matches everything but scripts instead of nothing, and the negated type no longer counts as a modifier")
 	c.Rule("C04.R2", "COV", "every restriction field written by the option loaders is read under Match", 12)
 	c.Rule("C04.R3", "TYPESTATE", "sorted-before-searched for $client and $ctag lists", 3)
 	c.Rule("C04.R4", "PDT", "include/exclude precedence of the five sibling checks", 5)
